@@ -140,6 +140,9 @@ def corpus_for(cfg):
                 if dep in ("Sum", "Product") and has_type_param and "forward" not in it.src:
                     continue
                 ds = [d for d in ds if d != dep]
+        # an item whose Error impl relies on its own derived Display/Debug is only meaningful next to those derives
+        if "Error" in ds and any(need in it.derives and need not in ds for need in ("Display", "Debug")):
+            ds = [d for d in ds if d != "Error"]
         if not ds:
             continue
         out.append(items_mod.Item(ds, it.src, it.dims))
